@@ -166,35 +166,66 @@ SPEC = {
     "finding_key": finding_key,
     "shrink": shrink,
     "search": search,
-    "level_text": "Proof: the model of find_function_type (viability by ImplicitConversion::find per argument, numeric-rank "
-                  "tournament, VectorRank count vector, unique/several/none) is proved, for every candidate list, arity and "
-                  "argument list, to give the same verdict under every permutation of the declaration order, to select a "
-                  "unique exactly-matching candidate, to report several exactly-matching candidates as ambiguous and never "
-                  "to select a dominated candidate. The rank tables are re-extracted from casting.rs each run; the model is "
-                  "compared with the real type checker on generated programs under every declaration order and with "
+    "level_text": "Proof: the model of find_function_type (arity guard, the template half of find_overload_casts as an "
+                  "arbitrary may-fail/may-panic function of the argument types, ImplicitConversion::find per argument, "
+                  "numeric-rank tournament, VectorRank count vector, unique/several/none) is proved, for every candidate list "
+                  "of every kind (ordinary functions, default arguments, function templates with any deduction relation), "
+                  "arity and argument list, to give the same verdict under every permutation of the declaration order, to "
+                  "select a unique exactly-matching candidate, to report several exactly-matching candidates as ambiguous "
+                  "and never to select a dominated candidate; the loop-by-loop transcription with lazily evaluated get_rank "
+                  "is proved equal to it. The rank tables and the text of the transcribed routines are re-extracted from the "
+                  "source each run (a reshaped loop stops the theorems from checking); the model is compared with the real "
+                  "type checker on generated programs under every declaration order on every call path that reaches "
+                  "find_function_type (free functions, methods called from outside and inside, methods of struct templates, "
+                  "namespaces qualified / reopened / hiding / absolute, user overloads of intrinsics, intrinsic methods of "
+                  "objects, function templates with deduced and explicit template arguments) and with "
                   "ImplicitConversion::find/get_rank/get_target_type on an exhaustive table of type pairs.",
-    "rule": "C16.resolve requests = (candidate list in declaration order, argument types) compiled as an RSSL program whose "
-            "overloads return distinct structs and whose call is wrapped in assert_type<R>(f(args)); every permutation of "
-            "every candidate set is run (sets of 2-5 overloads, 1-3 parameters over {bool,int,uint,half,float,double} x "
-            "{scalar,2,3,4} x in/out/inout, some with a defaulted trailing parameter; arguments = grid types as lvalue, "
-            "rvalue, const lvalue, and untyped int/float literals). C16.conv requests = one row of the exhaustive "
-            "find/get_rank/get_target_type table over 8 scalar kinds x {scalar, vec1-4, 2 matrices} + enums + structs x "
+    "rule": "C16.resolve requests = (candidate list in declaration order, argument types, options) compiled as an RSSL program "
+            "whose overloads return distinct structs and whose call is wrapped in assert_type<R>(f(args)); the verdict is read "
+            "from the type checker's structured result (Call node of the accepted module / AssertTypeFailed / "
+            "FunctionArgumentTypeMismatch ids + ambiguous flag), for a selected template also the template arguments of the "
+            "called instantiation; every permutation of every user-declared candidate set is run (sets of 1-5 overloads, 1-3 "
+            "parameters over {bool,int,uint,half,float,double} x {scalar,2,3,4} x in/out/inout, some with a defaulted trailing "
+            "parameter, off the grid 1-vectors, matrices, structs, enums, arrays; templates with T / vector<T,n> / "
+            "matrix<T,x,y> / T[n] parameters, type and value template parameters; arguments = lvalue, rvalue, const lvalue, "
+            "untyped int/float literals, written as locals, struct members, casts, globals). Oracle (independent of get_rank): "
+            "same verdict under every order and every argument spelling; hidden outer overloads never selected; a candidate "
+            "whose parameter types equal the argument types is selected (several: ambiguous between exactly those); the "
+            "selected candidate is viable and not dominated, conversion quality taken from a hand-written copy of the priority "
+            "table in casting.rs's header comment. C16.conv requests = one row of the exhaustive find/get_rank/"
+            "get_target_type table over 8 scalar kinds x {scalar, vec1-4, 2 matrices} + enums + structs x "
             "{none,const,volatile} x {lvalue,rvalue}. non-trivial = at least two candidates / a table row.",
     "trusted_base": [
         "Lean 4.33 kernel; axioms propext / Classical.choice / Quot.sound only (audited by #print axioms)",
-        "tools/gens/c16.py (RankTable: ScalarType, NumericDimension, InputModifier->ValueType, NumericRank + order + "
-        "compare, VectorRank + worst_to_best, the (source_scalar,dest_scalar) rank match, get_rank's DimensionCast match) "
-        "— re-run on /repo's working tree every time",
-        "hand-written Model/Conv.lean (dimension/primary/modifier cast logic of find) and Model/Overload.lean "
-        "(find_function_type: `resolveLazy` is the loop-by-loop transcription answering the correspondence requests, "
-        "`resolve` the form the theorems use, proved equal) — tied to the code by the correspondence run only",
-        "Spec/Overload.lean: our reading of better/worse conversions, domination and exact match",
+        "tools/gens/c16.py — RankTable (ScalarType, NumericDimension, InputModifier->ValueType, NumericRank + order + "
+        "compare, VectorRank + worst_to_best, the (source_scalar,dest_scalar) rank match, get_rank's DimensionCast match) and "
+        "ResolveShape (19 regular-expression facts about find_function_type / find_overload_casts / find_identifier / "
+        "find_identifier_in_scope / insert_function_in_scope / get_struct_member_expression, the callers of "
+        "find_function_type, and the comment- and whitespace-free text of find_function_type, find_overload_casts, "
+        "try_infer_template_type, normalize_template_type) — re-run on /repo's working tree every time",
+        "hand-written Model/Conv.lean (dimension/primary/modifier cast logic of find), Model/Overload.lean and "
+        "Model/OverloadT.lean (find_function_type and the template half of find_overload_casts: `resolveTLazy` is the "
+        "loop-by-loop transcription answering the correspondence requests, `resolveT`/`resolveG` the form the theorems use, "
+        "proved equal); Model/OverloadSrc.lean holds the source text they were transcribed from "
+        "(resolve_source_as_transcribed) — their *meaning* is tied to the code by the correspondence run only",
+        "Spec/Overload.lean: our reading of better/worse conversions, domination and exact match; harness/src/c16.rs: the "
+        "oracle's hand-written conversion-quality table, its reading of template argument deduction, and "
+        "ImplicitConversion::find(..).is_ok() as the definition of 'viable'",
     ],
     "assumptions": [
         "TypeId equality is structural equality of types (the type registry hash-conses layers)",
-        "no template functions / explicit template arguments (find_overload_casts' template branch is not modelled)",
         "exactly matching = every passed argument has the type of its parameter, ignoring value category, const and "
-        "trailing defaulted parameters; two such candidates (f(int)/f(out int), f(int)/f(int, int = 0)) are ambiguous",
-        "FunctionIds of the candidates are pairwise distinct",
+        "trailing defaulted parameters; two such candidates (f(int)/f(out int), f(int)/f(int, int = 0), "
+        "template<T> f(T)/f(int)) are ambiguous; judged wherever no 1-vector is involved (int -> int1 is ranked exact)",
+        "FunctionIds of the candidates are pairwise distinct; an instantiated signature has as many parameters as the "
+        "template (WF, proved for the modelled templates)",
+        "which overload list reaches find_function_type (innermost scope that knows the name; all methods of the struct; all "
+        "functions of the object; intrinsics + user functions of that name in the root scope) is fingerprinted "
+        "(resolve_shape_as_modelled) and exercised by the call-path streams, not modelled in Lean",
+        "template parameters appear in parameter types only as T, vector<T,n>, matrix<T,x,y>, T[n]; the compiler's own "
+        "templates (Load<T>, Store(uint,T), DispatchMesh) are run with type arguments only; one call per program (the "
+        "instantiation cache is never hit twice)",
+        "known defect (known_findings.jsonl): binding T of vector<T,n>/matrix<T,x,y> to a non-scalar panics in "
+        "TypeRegistry::register_type; the model reproduces the panic (template_vector_of_vector_panics)",
     ],
 }
